@@ -114,7 +114,7 @@ func shapeOf(e parser.Expr) string {
 		if ts == nil {
 			return
 		}
-		if a := abs64(*ts); tsRead(a) != a {
+		if a := abs64(*ts); *ts != math.MinInt64 && tsRead(a) != a {
 			set("at-timestamp-float-precision")
 		}
 	}
@@ -123,6 +123,9 @@ func shapeOf(e parser.Expr) string {
 		case *parser.AggregateExpr:
 			labelsBad(x.Grouping)
 		case *parser.BinaryExpr:
+			if nl, ok := x.LHS.(*parser.NumberLiteral); ok && x.Op == parser.POW && !nl.Duration && math.IsInf(nl.Val, 1) {
+				set("inf-literal-power-lhs")
+			}
 			if m := x.VectorMatching; m != nil {
 				labelsBad(m.MatchingLabels)
 				labelsBad(m.Include)
@@ -369,7 +372,9 @@ func main() {
 		`1s1ms`, `-1s3ms`, `foo > 1s5ms`, // fixed (08a939fd28): regression cases
 		`34546d21h26m45s22ms`, `foo * -34546d21h26m45s22ms`, `200d3ms`, // fixed (346b90dbb7): regression cases
 		`foo @ 9007199254740.993`, `foo @ 4503599627370.4`, `foo[5m:] @ -4503599627370.4`,
+		`foo @ 4503599627599627370.495`, `foo @ -9223372036854776.000`, // int64 ms overflow in setTimestamp (stable round trip)
 		`a + fill_left(0) fill_right(-0) b`,
+		`Inf ^ f`, `+Inf^f`, `-Inf ^ 2`, `foo * Inf ^ 2`,
 	}
 	all := parser.Options{EnableExperimentalFunctions: true, EnableExtendedRangeSelectors: true, EnableBinopFillModifiers: true}
 	for _, s := range findings {
@@ -385,7 +390,7 @@ func main() {
 	}
 
 	// 2. generated ASTs
-	n := f.Count(350, 40000)
+	n := f.Count(350, 15000)
 	var printed []string
 	for i := 0; i < n; i++ {
 		r := gen.Fork(f.Seed, i)
@@ -401,7 +406,7 @@ func main() {
 	}
 
 	// 3. totality: mutated corpus / printed texts and random token soups
-	m := f.Count(1500, 150000)
+	m := f.Count(1500, 60000)
 	for i := 0; i < m; i++ {
 		r := gen.Fork(f.Seed, 1000000+i)
 		o := optsOf(r.Intn(16))
